@@ -18,7 +18,8 @@ CONSTANTS
   MaxStops = 0
   MaxExpire = 1
   IgnoredStarts = TRUE
-  LateRace = FALSE
+  RaceFinder = FALSE
+  RaceBuffer = FALSE
 VIEW view
 PROPERTIES Terminates
 CHECK_DEADLOCK FALSE
